@@ -312,6 +312,19 @@ func (r *replicator) processHash(ctx context.Context, item processItem) ([]cid.C
 		return nil, fmt.Errorf("unable to fetch entry %s", hash)
 	}
 
+	// a link may name the right bytes under another codec or CID version (block stores are keyed by the
+	// digest): the entry would then be merged a second time under an address its content does not hash to
+	for _, e := range l.GetEntries().Slice() {
+		c, err := r.store.IO().Write(ctx, r.store.IPFS(), e, nil)
+		if err != nil {
+			return nil, fmt.Errorf("unable to check the address of a fetched entry: %w", err)
+		}
+
+		if c.String() != e.GetHash().String() {
+			return nil, fmt.Errorf("fetched entry does not hash to the address it was requested by (%s)", e.GetHash())
+		}
+	}
+
 	r.muBuffer.Lock()
 	r.buffer = append(r.buffer, l)
 	r.muBuffer.Unlock()
